@@ -136,10 +136,7 @@ theorem good_retryLoop (cap : Nat) (c : Cfg) (size fuel : Nat) (post : Meta → 
     dsimp only
     split
     · exact .ret ⟨rfl, _, rfl⟩
-    · rw [bind_eq]
-      refine (good_liftM' cap _ _).bind (fun o last ho => ?_)
-      subst ho
-      split
+    · split
       · exact .ret ⟨rfl, _, rfl⟩
       · split
         · exact good_retryLoop cap c size fuel post _ n (i + 1)
